@@ -146,7 +146,7 @@ theorem scr_stepMain (cfg : Cfg) (script : List Cmd) (s s' : State) (h : stepMai
   cases hm : s.mpc <;> simp only [hm] at h <;>
     (try split at h) <;> (try split at h) <;> (try split at h) <;> (try cases h) <;>
   (first
-    | (refine scr_same inv rfl rfl ?_ ?_ ?_ <;> simp [hm, curCmd, inClose, closeBody, setP] <;> done)
+    | (refine scr_same inv rfl rfl ?_ ?_ ?_ <;> simp [hm, curCmd, inClose, closeBody] <;> done)
     | (refine scr_same inv rfl rfl ?_ ?_ ?_ <;> cases cfg.wait <;>
          simp [hm, curCmd, inClose, closeBody, setP] <;> done)
     | (refine scr_nextCmd' (X := s) inv rfl (fun _ h => h) ?_
@@ -214,7 +214,7 @@ theorem gf_stepMain (cfg : Cfg) (s s' : State) (h : stepMain cfg s = some s') (i
     (first
       | exact absurd hi (not_loop_of_start (next_startPc _ _).2.2.2.1 i)
       | exact absurd hi (not_loop_of_start (nextCmd_startPc _ _).2.2.2.1 i)
-      | (simp [setP] at hi; done))
+      | (simp at hi; done))
 
 theorem gf_reach {cfg : Cfg} {script : List Cmd} {s : State} (h : Reach cfg script s) : GF cfg s := by
   induction h with
@@ -637,7 +637,7 @@ theorem stepPlayer_afterLoop (cfg : Cfg) (s s' : State) (i : Nat) (h : stepPlaye
     cases hpcv : p.pc <;> simp only [hpcv] at h <;> (try split at h) <;> (try cases h) <;>
       (refine ⟨p, _, hp, rfl, rfl, ?_⟩) <;> (try split) <;> simp [afterLoop, hpcv]
 
-theorem gc_set {s : State} {i : Nat} {p p' : Player} (m' : MPc)
+theorem gc_set {s : State} {i : Nat} {p p' : Player}
     (inv : ∀ (k : Nat) (q : Player), s.players[k]? = some q → q.go = true ∨ afterLoop q.pc = true)
     (hp : s.players[i]? = some p) (hi : p.go = true ∨ afterLoop p.pc = true → p'.go = true ∨ afterLoop p'.pc = true) :
     ∀ (k : Nat) (q : Player), (s.players.set i p')[k]? = some q → q.go = true ∨ afterLoop q.pc = true := by
@@ -681,21 +681,21 @@ theorem gc_stepMain (cfg : Cfg) (script : List Cmd) (s s' : State) (h : stepMain
       · cases h
       cases h
       intro _
-      exact gc_set .done (inv (by rw [hm]; rfl)) hp (fun h => h)
+      exact gc_set (inv (by rw [hm]; rfl)) hp (fun h => h)
     · cases h
   case kSEvt j =>
     split at h
     · rename_i p hp
       cases h
       intro _
-      exact gc_set .done (inv (by rw [hm]; rfl)) hp (fun _ => Or.inl (by simp [ctlGo, hf]))
+      exact gc_set (inv (by rw [hm]; rfl)) hp (fun _ => Or.inl (by simp [ctlGo, hf]))
     · cases h
   case kSRel j =>
     split at h
     · rename_i p hp
       cases h
       intro _
-      exact gc_set .done (inv (by rw [hm]; rfl)) hp (fun h => h)
+      exact gc_set (inv (by rw [hm]; rfl)) hp (fun h => h)
     · cases h
   all_goals
     (try split at h) <;> (try split at h) <;> (try split at h) <;> (try cases h) <;>
@@ -719,7 +719,7 @@ theorem gc_reach {cfg : Cfg} {script : List Cmd} {s : State} (hf : cfg.fixed = t
       intro hpre
       rw [h1] at hpre
       rw [hs']
-      refine gc_set .done (ih hpre) hp ?_
+      refine gc_set (ih hpre) hp ?_
       intro h
       rcases h with h | h
       · exact Or.inl (by rw [hgo]; exact h)
